@@ -36,6 +36,7 @@ static std::vector<Op> buildAlphabet(const std::string& name, Limits& L, const s
         for (auto d : {"pt_missing", "pt_extra", "pt_renamed", "pt_dup", "ch_missing", "ch_extra", "pt_none"}) A.push_back(opFrame(d, "app", 0, L));
         A.push_back(opFrame("pt_missing", "0", 0, L)); A.push_back(opFrame("ch_extra", "n+1", 0, L));
         A.push_back(opFrame("addpoints", "0", 1, L)); A.push_back(opFrame("addanalogs", "0", 1, L));
+        A.push_back(opFrame("sub_extra", "0", 1, L)); A.push_back(opFrame("sub_missing", "0", 1, L));   // the single stored frame replaced by one with another number of sub-frames
         A.push_back(opSubmitStored(0, "n", L)); A.push_back(opSubmitStored(0, "app", L));   // a stored frame handed back to the object
         for (auto w : {"both", "pt", "an"}) A.push_back(opFrameFree(w, 0, L));
         A.push_back(opFrameEmpty(L));
@@ -55,6 +56,7 @@ static std::vector<Op> buildAlphabet(const std::string& name, Limits& L, const s
         A.push_back(opColPoint("ok", 1, L)); A.push_back(opColPoint("ok2", 2, L)); A.push_back(opColAnalog("ok", 1, L)); A.push_back(opColAnalog("ok2", 2, L));
         for (int r : {0, 1}) { A.push_back(opRegBuild(r, r)); A.push_back(opRegSubmit(r, "app", L)); A.push_back(opRegMut(r, "px")); }
         A.push_back(opRegSubmit(0, "0", L)); A.push_back(opRegSubmit(0, "n+1", L)); A.push_back(opRegMut(0, "ch")); A.push_back(opRegExt(0, L)); A.push_back(opRegCopy(1, 0));
+        A.push_back(opRegSubmitTemp(0, "app", L)); A.push_back(opRegSubmitTemp(0, "n+1", L)); A.push_back(opRegSubmitTemp(1, "0", L));
         A.push_back(opRegHold(0)); A.push_back(opRegMutHeld(0));
         A.push_back(opStoredAddSubframe(0)); A.push_back(opStoredAddSubframe(1)); A.push_back(opRegAddSubframe(0));
         for (size_t f : {0, 1, 2}) { A.push_back(opEditStored(f, "px")); }
@@ -64,10 +66,11 @@ static std::vector<Op> buildAlphabet(const std::string& name, Limits& L, const s
         L.maxFrames = 2; L.maxPoints = 3; L.maxChans = 2;
         for (auto n : {"AB", "A", "C"}) A.push_back(opPoint(n, L));   // one label is a proper prefix of the other
         for (auto n : {"a", "ab"}) A.push_back(opAnalog(n, L));
-        for (float r : {0.f, 100.f}) A.push_back(opRate("POINT", r));
-        for (float r : {0.f, 200.f}) A.push_back(opRate("ANALOG", r));
+        for (float r : {0.f, 100.f, 0.5f}) A.push_back(opRate("POINT", r));    // 0.5 Hz: a rate that is set, yet truncates to 0
+        for (float r : {0.f, 200.f, 0.5f}) A.push_back(opRate("ANALOG", r));
         for (auto d : {"ok", "pt_missing", "pt_extra", "pt_renamed", "pt_renamed_first", "pt_renamed_mid", "pt_dup", "pt_perm", "pt_none", "ch_missing", "ch_extra", "ch_renamed", "sub_missing", "sub_extra", "an_none", "empty"})
             for (auto t : {"app", "0", "n+1"}) A.push_back(opFrame(d, t, 0, L));
+        for (auto t : {"app", "0", "n+1"}) A.push_back(opFrame("sub_ragged", t, 1, L));   // sub-frames of unequal width (other values than the stored frames: a half-done replacement shows)
         for (auto w : {"both", "pt", "an"}) A.push_back(opFrameFree(w, 0, L));
         A.push_back(opFrameEmpty(L));
         if (thorough) {   // pairs of deviations
@@ -83,6 +86,7 @@ static std::vector<Op> buildAlphabet(const std::string& name, Limits& L, const s
         for (auto g : {"POINT", "NEWG", "G2"}) for (auto n : {"X", "Y"}) for (auto& v : vals) A.push_back(opParam(g, n, pv(v), "d0", false, L));
         A.push_back(opParam("ANALOG", "X", pv("s22"), "d20", true, L)); A.push_back(opParam("NEWG", "X", pv("i7"), "d20", true, L)); A.push_back(opParam("POINT", "UNITS", pv("s1"), "d1", false, L));
         A.push_back(opParam("newg", "x", pv("f1"), "d1", false, L));
+        A.push_back(opParam("POINT", "Rate", pv("i7"), "d1", false, L)); A.push_back(opParam("NEWG", "x", pv("s2"), "d0", true, L));   // names that differ from an existing one by case only are other parameters
         for (auto g : {"G2", "G3", "G4", "G5", "G6", "G7"}) A.push_back(opParamFromStored(g, L));
         for (auto src : {"B3", "B22", "S42", "F23"}) { A.push_back(opParamCopyOfStored("EXTRA", src, "NEWG", "X")); A.push_back(opParamCopyOfStored("EXTRA", src, "POINT", "Y")); }
         for (auto g : {"POINT", "NEWG", "G2", "NOPE"}) { A.push_back(opLock(g, true)); A.push_back(opLock(g, false)); }
@@ -146,7 +150,8 @@ int main(int argc, char** argv) {
     {
         std::vector<std::pair<std::string, std::string>> roots;
         if (alphabet == "frames") roots = {{"events", "events=2;first=5"}, {"noanalog", "agroup=empty;chans=0;points=1"}, {"first3", "first=3;chans=0"}};   // first frame number 3: header window 2..3 overlaps the indices count, count+1
-        if (alphabet == "mut") roots = {{"events", "events=2;first=5"}, {"sparse", "ids=sparse;extra=all;order=paramsFirst"}, {"zeros", "zeros=7;prologue=0000;frames=1"}, {"noanalog", "agroup=empty;chans=0;points=1"}};
+        if (alphabet == "mut") roots = {{"events", "events=2;first=5"}, {"sparse", "ids=sparse;extra=all;order=paramsFirst"}, {"zeros", "zeros=7;prologue=0000;frames=1"}, {"noanalog", "agroup=empty;chans=0;points=1"}, {"onechan", "chans=1;points=1;frames=1"}, {"minimal", "optparams=minimal;chans=1;points=1;frames=1"}};   // onechan: room for one more point and channel on a LOADED object (whose ANALOG group has no DESCRIPTIONS)
+        if (alphabet == "c07") roots = {{"onechan", "chans=1;points=1;frames=1"}};
         if (alphabet == "build") roots = {{"events", "events=18;first=705"}, {"extra", "extra=all;descs=d127;locks=yes"}, {"str1d", "extra=str1d;ids=swapped"}, {"labels", "labels=more;alabels=fewer;points=3"}, {"noanalog", "agroup=empty;chans=0"}, {"block3", "pblock=3;zeros=1"}};
         if (alphabet == "params") roots = {{"described", "extra=all;locks=yes"}, {"sparse", "ids=sparse"}};
         if (alphabet == "lookup") roots = {{"labels", "labels=fewer;alabels=more;points=3"}, {"events", "events=2"}};
